@@ -62,6 +62,11 @@ func (g *Gen) name() string {
 		}
 		return g.pick(dirNames) + g.pick([]string{"", "1", ".x", "_", "-"})
 	}
+	if r.Chance(20) {
+		// the rune classes behind the name rule: digits, letters and marks outside ASCII, in first and later positions
+		return g.pick([]string{"\u0663abc", "\uff11x", "\U0001d7d8zero", "a\u0663", "x\uff11", "\u0301a", "a\u0301", "a\u20acb", "\u00c9a", "\u00b2x", "x\u00b2",
+			"\u00bd", "a\u00a0b", "\u0e50\u0e51", "\u2160x", "_\u0663", "-a", ".a", "\u00aa", "\u00df9"})
+	}
 	switch x := r.Intn(30); {
 	case x < 4:
 		return "1abc"
